@@ -327,10 +327,12 @@ def judge(ctx, prog, rc, out, err):
     """returns (monitor_violations [(sig, what)], impl_lines)"""
     lines = strip(out)
     viols = []
-    cur = ""
+    cur = ckind = ""
     for l in out.splitlines():
         if l.startswith("op "):
-            cur = l[3:]
+            cur = l[3:]; ckind = ""
+        elif l.startswith("# close kind="):
+            ckind = l.split("=")[1]
         elif l.startswith("MONITOR "):
             kind = l.split()[1]
             opname = cur.split()[0] if cur else "?"
@@ -338,7 +340,7 @@ def judge(ctx, prog, rc, out, err):
             if kind == "FOREIGN-CLOSE" and opname == "spawn" and "double close" in l:
                 sig = KNOWN_SIGS["spawn"]
             if kind in ("STDIO-CLOSE", "FD-VANISHED") and opname == "close":
-                sig = "stdio-fd-closed-by-uv_close"
+                sig = KNOWN_SIGS["udp-stdio"] if ckind == "udp" else "stdio-fd-closed-by-uv_close"
             if kind == "LEAK" and opname == "loop_init":
                 sig = KNOWN_SIGS["loop-init"]
             viols.append((sig, f"{l[8:]}  (during `{cur}`)"))
@@ -346,7 +348,7 @@ def judge(ctx, prog, rc, out, err):
         opname = cur.split()[0] if cur else "start"
         sig = f"crash-in-{opname}"
         if opname == "close" and "STDERR_FILENO" in err:
-            sig = "stdio-fd-closed-by-uv_close"
+            sig = KNOWN_SIGS["udp-stdio"] if ckind == "udp" else "stdio-fd-closed-by-uv_close"
         tail = " | ".join(err.strip().splitlines()[:6])[:500]
         viols.append((sig, f"harness died (rc={rc}) during `{cur}`: {tail}"))
     return viols, lines
